@@ -54,10 +54,10 @@ example : (copyChars { Dec.init with cr := true } [bLF]).toOption.map (·.out.le
     computed space, copy_chars / PORT_ASCII loop / PORT_BINARY) performs no access outside `text[MAX_TEXT]`, the
     local `buf[MAX_TEXT]` or `sb_buf`, and the invariant holds afterwards.  The same for add_console_line with
     any blob.  (A crash is `Except.error`; the theorem says the result is `.ok`.) -/
-theorem buffer_writes_in_bounds (s : S) (h : Inv s) :
-    (∃ s' evs, getUserData s = .ok (s', evs) ∧ Inv s') ∧
+theorem buffer_writes_in_bounds (o : Oracle) (s : S) (h : Inv s) :
+    (∃ s' evs, getUserData o s = .ok (s', evs) ∧ Inv s') ∧
     (∀ blob, ∃ s', addConsoleLine s blob = .ok s' ∧ Inv s') :=
-  ⟨getUserData_ok h, fun blob => addConsoleLine_ok h blob⟩
+  ⟨getUserData_ok o h, fun blob => addConsoleLine_ok h blob⟩
 
 /-- non-vacuity: fresh connections satisfy the invariant -/
 example (p : Port) : Inv (S.init p) := init_inv p
@@ -74,24 +74,24 @@ theorem space_rule_sufficient (s : S) (h : Inv s) :
 inductive InOp where
   | send (b : List Byte) | read | line (b : List Byte)
 
-def inStep (s : S) : InOp → Except String S
+def inStep (o : Oracle) (s : S) : InOp → Except String S
   | .send b => .ok { s with sock := s.sock ++ b }
-  | .read => (getUserData s).map (·.1)
+  | .read => (getUserData o s).map (·.1)
   | .line b => addConsoleLine s b
 
-def inRun (s : S) : List InOp → Except String S
+def inRun (o : Oracle) (s : S) : List InOp → Except String S
   | [] => .ok s
-  | op :: ops => match inStep s op with
+  | op :: ops => match inStep o s op with
     | .error e => .error e
-    | .ok s' => inRun s' ops
+    | .ok s' => inRun o s' ops
 
 /-- **overlong_cut_or_discarded_bounded / survives any byte stream** (input side): on every port, for every sequence
     of client sends, read events and console blobs — any bytes, any lengths, any segmentation — the driver never
     accesses memory outside its buffers and the buffered text stays within `text_end ≤ MAX_TEXT-1`
     (over-long input is discarded by get_user_data / dropped by add_console_line, never stored). -/
-theorem input_never_overflows (p : Port) (ops : List InOp) :
-    ∃ s, inRun (S.init p) ops = .ok s ∧ Inv s := by
-  suffices H : ∀ s, Inv s → ∃ s', inRun s ops = .ok s' ∧ Inv s' from H _ (init_inv p)
+theorem input_never_overflows (o : Oracle) (p : Port) (ops : List InOp) :
+    ∃ s, inRun o (S.init p) ops = .ok s ∧ Inv s := by
+  suffices H : ∀ s, Inv s → ∃ s', inRun o s ops = .ok s' ∧ Inv s' from H _ (init_inv p)
   induction ops with
   | nil => intro s h; exact ⟨s, rfl, h⟩
   | cons op ops ih =>
@@ -100,8 +100,8 @@ theorem input_never_overflows (p : Port) (ops : List InOp) :
     | send b =>
       exact ih _ ⟨h.textLen, h.se, h.eMax, h.dec⟩
     | read =>
-      obtain ⟨s', evs, h1, h2⟩ := getUserData_ok h
-      have : inStep s .read = .ok s' := by simp [inStep, h1, Except.map]
+      obtain ⟨s', evs, h1, h2⟩ := getUserData_ok o h
+      have : inStep o s .read = .ok s' := by simp [inStep, h1, Except.map]
       simp only [inRun, this]; exact ih _ h2
     | line b =>
       obtain ⟨s', h1, h2⟩ := addConsoleLine_ok h b
@@ -164,18 +164,18 @@ inductive AnyOp where
   | send (b : List Byte) | read | line (b : List Byte) | extract
 
 /-- one event; the delivered line, if any, is returned -/
-def anyStep (s : S) : AnyOp → Except String (S × Option (List Byte))
+def anyStep (o : Oracle) (s : S) : AnyOp → Except String (S × Option (List Byte))
   | .send b => .ok ({ s with sock := s.sock ++ b }, none)
-  | .read => (getUserData s).map (fun r => (r.1, none))
+  | .read => (getUserData o s).map (fun r => (r.1, none))
   | .line b => (addConsoleLine s b).map (fun s' => (s', none))
   | .extract => getUserCommand s
 
-def anyRun (s : S) (acc : List (List Byte)) : List AnyOp → Except String (S × List (List Byte))
+def anyRun (o : Oracle) (s : S) (acc : List (List Byte)) : List AnyOp → Except String (S × List (List Byte))
   | [] => .ok (s, acc)
-  | op :: ops => match anyStep s op with
+  | op :: ops => match anyStep o s op with
     | .error e => .error e
-    | .ok (s', none) => anyRun s' acc ops
-    | .ok (s', some l) => anyRun s' (acc ++ [l]) ops
+    | .ok (s', none) => anyRun o s' acc ops
+    | .ok (s', some l) => anyRun o s' (acc ++ [l]) ops
 
 /-- **buffer_writes_in_bounds, every interleaving** (line mode): for every port and every schedule of client sends, read
     events, console blobs and command extractions — any bytes, any segmentation, any interleaving — no step accesses
@@ -183,10 +183,10 @@ def anyRun (s : S) (acc : List (List Byte)) : List AnyOp → Except String (S ×
     `0 ≤ text_start ≤ text_end ≤ MAX_TEXT-1` holds at the end, and every delivered line is shorter than MAX_TEXT
     (**overlong_cut_or_discarded_bounded**: whatever the client sends, a delivered line has at most MAX_TEXT-1 bytes and
     nothing more is ever buffered). -/
-theorem framing_never_crashes (p : Port) (ops : List AnyOp) :
-    ∃ s delivered, anyRun (S.init p) [] ops = .ok (s, delivered) ∧ Inv s ∧ ∀ l ∈ delivered, l.length + 1 ≤ MAXT := by
+theorem framing_never_crashes (o : Oracle) (p : Port) (ops : List AnyOp) :
+    ∃ s delivered, anyRun o (S.init p) [] ops = .ok (s, delivered) ∧ Inv s ∧ ∀ l ∈ delivered, l.length + 1 ≤ MAXT := by
   suffices H : ∀ s acc, Inv s → s.dec.fl.single = false → (∀ l ∈ acc, l.length + 1 ≤ MAXT) →
-      ∃ s' d, anyRun s acc ops = .ok (s', d) ∧ Inv s' ∧ ∀ l ∈ d, l.length + 1 ≤ MAXT from
+      ∃ s' d, anyRun o s acc ops = .ok (s', d) ∧ Inv s' ∧ ∀ l ∈ d, l.length + 1 ≤ MAXT from
     H _ [] (init_inv p) rfl (fun l hl => by cases hl)
   induction ops with
   | nil => intro s acc h _ ha; exact ⟨s, acc, rfl, h, ha⟩
@@ -196,16 +196,16 @@ theorem framing_never_crashes (p : Port) (ops : List AnyOp) :
     | send b =>
       exact ih _ acc ⟨h.textLen, h.se, h.eMax, h.dec⟩ hs ha
     | read =>
-      obtain ⟨s', evs, h1, h2, h3⟩ := getUserData_ok' h
-      have : anyStep s .read = .ok (s', none) := by simp [anyStep, h1, Except.map]
+      obtain ⟨s', evs, h1, h2, h3⟩ := getUserData_ok' o h
+      have : anyStep o s .read = .ok (s', none) := by simp [anyStep, h1, Except.map]
       simp only [anyRun, this]; exact ih _ acc h2 (by rw [h3]; exact hs) ha
     | line b =>
       obtain ⟨s', h1, h2, h3⟩ := addConsoleLine_ok' h b
-      have : anyStep s (.line b) = .ok (s', none) := by simp [anyStep, h1, Except.map]
+      have : anyStep o s (.line b) = .ok (s', none) := by simp [anyStep, h1, Except.map]
       simp only [anyRun, this]; exact ih _ acc h2 (by rw [h3]; exact hs) ha
     | extract =>
       obtain ⟨s', r, h1, h2, h3, h4⟩ := getUserCommand_ok h hs
-      have : anyStep s .extract = .ok (s', r) := h1
+      have : anyStep o s .extract = .ok (s', r) := h1
       cases r with
       | none => simp only [anyRun, this]; exact ih _ acc h2 h3 ha
       | some l =>
@@ -220,8 +220,8 @@ theorem framing_never_crashes (p : Port) (ops : List AnyOp) :
 /-! ### the end-to-end clause: delivered command lines = `lines stream`, for every schedule -/
 
 /-- every schedule of client sends, read events and extractions runs to the end (line mode, every port) -/
-theorem fRun_never_crashes (p : Port) (ops : List FOp) : ∃ f, fRun { s := S.init p } ops = .ok f := by
-  suffices H : ∀ f : F, Inv f.s → f.s.dec.fl.single = false → ∃ f', fRun f ops = .ok f' from H _ (init_inv p) rfl
+theorem fRun_never_crashes (o : Oracle) (p : Port) (ops : List FOp) : ∃ f, fRun o { s := S.init p } ops = .ok f := by
+  suffices H : ∀ f : F, Inv f.s → f.s.dec.fl.single = false → ∃ f', fRun o f ops = .ok f' from H _ (init_inv p) rfl
   induction ops with
   | nil => intro f _ _; exact ⟨f, rfl⟩
   | cons op ops ih =>
@@ -231,7 +231,7 @@ theorem fRun_never_crashes (p : Port) (ops : List FOp) : ∃ f, fRun { s := S.in
       simp only [fRun, fStep]
       exact ih _ ⟨h.textLen, h.se, h.eMax, h.dec⟩ hs
     | read =>
-      obtain ⟨s', evs, h1, h2, h3⟩ := getUserData_ok' h
+      obtain ⟨s', evs, h1, h2, h3⟩ := getUserData_ok' o h
       simp only [fRun, fStep, h1]
       exact ih _ h2 (by rw [h3]; exact hs)
     | extract =>
@@ -248,11 +248,11 @@ theorem fRun_never_crashes (p : Port) (ops : List FOp) : ∃ f, fRun { s := S.in
       `lines received` — the specification applied to the bytes received so far, which knows nothing of reads;
     * `received ++ socket = sent`;
     * after an extraction that returned no command, everything is delivered: `delivered = lines received`. -/
-theorem telnet_lines_delivered (ops : List FOp) (f : F) (h : fRun { s := S.init .telnet } ops = .ok f)
-    (hc : f.clean = true) :
+theorem telnet_lines_delivered (o : Oracle) (hnd : NoDest o) (ops : List FOp) (f : F)
+    (h : fRun o { s := S.init .telnet } ops = .ok f) (hc : f.clean = true) :
     f.delivered ++ cmdsOf [] (pend f.s) = lines f.received ∧ f.received ++ f.s.sock = f.sent ∧
     (f.lastNone = true → f.delivered = lines f.received) := by
-  have k := telnetK_run ops _ f (fun _ => telnetK_init) h hc
+  have k := telnetK_run hnd ops _ f (fun _ => telnetK_init) h hc
   have h0 := k.cmds []
   simp only [List.append_nil] at h0
   rw [← lines_eq_cmdsOf] at h0
@@ -261,42 +261,52 @@ theorem telnet_lines_delivered (ops : List FOp) (f : F) (h : fRun { s := S.init 
   exact h0
 
 /-- non-vacuity: a clean, drained run ("hi" CR LF sent, read, two extractions) -/
-example : (fRun { s := S.init .telnet } [.send [104, 105, 13, 10], .read, .extract, .extract]).toOption.map
+example : (fRun (fun _ => .ok) { s := S.init .telnet } [.send [104, 105, 13, 10], .read, .extract, .extract]).toOption.map
     (fun f => (f.clean, f.delivered, f.lastNone, f.s.sock)) = some (true, [[104, 105]], true, []) := by
   set_option maxRecDepth 1000000 in decide
 
 /-- two schedules that send the same bytes — cut into different chunks, read and extracted in different orders —
     and that both end drained with an empty socket deliver the same lines, namely `lines` of the bytes sent -/
-theorem telnet_schedule_independent (ops₁ ops₂ : List FOp) (f₁ f₂ : F)
-    (h₁ : fRun { s := S.init .telnet } ops₁ = .ok f₁) (h₂ : fRun { s := S.init .telnet } ops₂ = .ok f₂)
+theorem telnet_schedule_independent (o₁ o₂ : Oracle) (n₁ : NoDest o₁) (n₂ : NoDest o₂) (ops₁ ops₂ : List FOp) (f₁ f₂ : F)
+    (h₁ : fRun o₁ { s := S.init .telnet } ops₁ = .ok f₁) (h₂ : fRun o₂ { s := S.init .telnet } ops₂ = .ok f₂)
     (c₁ : f₁.clean = true) (c₂ : f₂.clean = true) (d₁ : f₁.lastNone = true) (d₂ : f₂.lastNone = true)
     (e₁ : f₁.s.sock = []) (e₂ : f₂.s.sock = []) (hs : f₁.sent = f₂.sent) :
     f₁.delivered = f₂.delivered ∧ f₁.delivered = lines f₁.sent := by
-  obtain ⟨_, s1, l1⟩ := telnet_lines_delivered ops₁ f₁ h₁ c₁
-  obtain ⟨_, s2, l2⟩ := telnet_lines_delivered ops₂ f₂ h₂ c₂
+  obtain ⟨_, s1, l1⟩ := telnet_lines_delivered o₁ n₁ ops₁ f₁ h₁ c₁
+  obtain ⟨_, s2, l2⟩ := telnet_lines_delivered o₂ n₂ ops₂ f₂ h₂ c₂
   rw [e₁, List.append_nil] at s1
   rw [e₂, List.append_nil] at s2
   rw [l1 d₁, l2 d₂, s1, s2, hs]
   exact ⟨rfl, rfl⟩
 
-/-- **segmentation_independent, end to end (PORT_ASCII).**  For any schedule of client sends, read events (and
-    extractions, which do nothing on this port) on a fresh ascii connection such that at every read the buffer is not
-    full (`clean`: no piece longer than MAX_TEXT-2 has accumulated — otherwise the over-long line is discarded):
-    the lines passed to process_input so far are exactly `asciiLines received`, whatever the segmentation; the partial
-    line kept between reads is the unterminated rest of the stream; `received ++ socket = sent`. -/
-theorem ascii_lines_delivered (ops : List FOp) (f : F) (h : fRun { s := S.init .ascii } ops = .ok f)
-    (hc : f.clean = true) :
-    f.delivered = asciiLines f.received ∧ f.received ++ f.s.sock = f.sent ∧
-    (∀ x, asciiLines (f.received ++ x) = f.delivered ++ asciiLinesAux [] (pend f.s ++ x)) := by
-  have k := asciiK_run ops _ f (fun _ => asciiK_init) h hc
+/-- **segmentation_independent + exactly-once delivery, end to end (PORT_ASCII), callbacks may fail.**
+    `o` answers every process_input call: return normally or raise an LPC error (which unwinds get_user_data to the
+    backend's recovery point).  For any schedule of client sends and read events on a fresh ascii connection such
+    that at every read the pending text does not fill the buffer (`clean`):
+    * every complete line of the stream is handed to process_input exactly once and in order — the lines delivered
+      so far (including those whose callback failed), followed by the complete lines still in the buffer, are
+      `asciiLines received`; nothing is lost or repeated, because `text_start` is committed past a line before
+      its callback runs;
+    * unless the last read that got data was left through an error, nothing complete is left over:
+      `delivered = asciiLines received`;
+    * `received ++ socket = sent`. -/
+theorem ascii_lines_delivered (o : Oracle) (hnd : NoDest o) (ops : List FOp) (f : F)
+    (h : fRun o { s := S.init .ascii } ops = .ok f) (hc : f.clean = true) :
+    (∀ x, asciiLines (f.received ++ x) = f.delivered ++ asciiLinesAux [] (pend f.s ++ x)) ∧
+    (f.aborted = false → f.delivered = asciiLines f.received) ∧ f.received ++ f.s.sock = f.sent := by
+  have k := asciiK_run hnd ops _ f (fun _ => asciiK_init) h hc
+  refine ⟨fun x => (k.lines x).symm, fun ha => ?_, k.sentEq⟩
   have h0 := k.lines []
   simp only [List.append_nil] at h0
-  rw [asciiLinesAux_pending k.nolf, List.append_nil] at h0
-  exact ⟨h0, k.sentEq, fun x => (k.lines x).symm⟩
+  rw [asciiLinesAux_pending (k.fin ha), List.append_nil] at h0
+  exact h0
 
-/-- non-vacuity: "hel", "lo\n" in two reads -/
-example : (fRun { s := S.init .ascii } [.send [104, 101, 108], .read, .send [108, 111, 10], .read]).toOption.map
-    (fun f => (f.clean, f.delivered, f.s.sock)) = some (true, [[104, 101, 108, 108, 111]], []) := by
+/-- non-vacuity: "one\ntwo\nthr", "ee\n" with the first callback raising an error: `one` is delivered (and fails),
+    the read is abandoned; the next read delivers `two`, `three` -/
+example : (fRun (fun k => if k = 0 then .err else .ok) { s := S.init .ascii }
+      [.send [111, 110, 101, 10, 116, 119, 111, 10, 116, 104, 114], .read, .send [101, 101, 10], .read]).toOption.map
+    (fun f => (f.clean, f.aborted, f.delivered, f.s.sock)) =
+    some (true, false, [[111, 110, 101], [116, 119, 111], [116, 104, 114, 101, 101]], []) := by
   set_option maxRecDepth 1000000 in decide
 
 end NV.C13
